@@ -490,3 +490,39 @@ pub fn account(ctx: &mut Ctx, run: &GraphRun) {
         ctx.count("runs_expected_error", 1);
     }
 }
+
+
+/// A real executed case written out for the evidence file: the case, the schedule that was
+/// followed and the event trace the monitors saw
+pub fn sample_json(case: &GraphCase, run: &GraphRun, spec: &Spec) -> Value {
+    let mut v = case.to_json(spec);
+    let names: Vec<String> = run
+        .outcome
+        .trace
+        .events
+        .iter()
+        .filter_map(|e| match e {
+            crate::sched::Event::Spawn { id, kind, path } => Some(format!("spawn#{id} {kind:?} {}", path.file_name().map(|x| x.to_string_lossy().to_string()).unwrap_or_default())),
+            crate::sched::Event::Begin(id) => Some(format!("begin#{id}")),
+            crate::sched::Event::Ready(id, ok) => Some(format!("ready#{id} ok={ok}")),
+            crate::sched::Event::End(id, p) => Some(format!("sent#{id}{}", if *p { " PANICKED" } else { "" })),
+            crate::sched::Event::Recv(r) => Some(match r {
+                txtpp::verif::Received::HasDeps { file, deps } => format!("recv HasDeps({}, {} deps)", file.file_name().map(|x| x.to_string_lossy().to_string()).unwrap_or_default(), deps.len()),
+                txtpp::verif::Received::Done { file } => format!("recv Done({})", file.file_name().map(|x| x.to_string_lossy().to_string()).unwrap_or_default()),
+                other => format!("recv {other:?}"),
+            }),
+            crate::sched::Event::RunEnd(ok) => Some(format!("run_end ok={ok}")),
+            crate::sched::Event::Deadlock { done, total } => Some(format!("DEADLOCK done={done} total={total}")),
+            _ => None,
+        })
+        .take(60)
+        .collect();
+    if let Some(m) = v.as_object_mut() {
+        m.insert("observed_verdict".into(), json!(run.outcome.verdict.short()));
+        m.insert("expected_ok".into(), json!(run.expected_ok));
+        m.insert("choices_taken".into(), json!(run.outcome.trace.choice_log.iter().map(|(c, n)| format!("{c}/{n}")).collect::<Vec<_>>()));
+        m.insert("event_trace".into(), json!(names));
+        m.insert("monitor_findings".into(), json!(run.problems.iter().map(|p| p.0.clone()).collect::<Vec<_>>()));
+    }
+    v
+}
